@@ -511,6 +511,46 @@ fn params_cmd(text: &str) -> Result<String, String> {
 }
 
 /// every AssertL hidden CMR of the debug build, looked up in debug_symbols()
+/// C19: the same source through the different constructors of the public API.
+///   (apipaths "<text>" (args..) (witness..) dbg) -> (commit <a> <b>) (redeem <a> <b> <c>) with hex encodings or error tags
+fn apipaths_cmd(text: &str, args: &Sexp, wit: &Sexp, dbg: bool) -> Result<String, String> {
+    use simfony::SatisfiedProgram;
+    let enc_commit = |c: &CompiledProgram| hex(&c.commit().encode_to_vec());
+    let enc_redeem = |s: &simfony::SatisfiedProgram| {
+        let (p, w) = s.redeem().encode_to_vec();
+        format!("{}:{}", hex(&p), hex(&w))
+    };
+    let a1 = match CompiledProgram::new(text, Arguments::from(name_values(args)?), dbg) {
+        Ok(c) => enc_commit(&c),
+        Err(_) => "err".to_string(),
+    };
+    let a2 = match TemplateProgram::new(text) {
+        Ok(t) => match t.instantiate(Arguments::from(name_values(args)?), dbg) {
+            Ok(c) => enc_commit(&c),
+            Err(_) => "err".to_string(),
+        },
+        Err(_) => "err".to_string(),
+    };
+    let r1 = match SatisfiedProgram::new(text, Arguments::from(name_values(args)?), WitnessValues::from(name_values(wit)?), dbg) {
+        Ok(s) => enc_redeem(&s),
+        Err(_) => "err".to_string(),
+    };
+    let (r2, r3) = match CompiledProgram::new(text, Arguments::from(name_values(args)?), dbg) {
+        Ok(c) => (
+            match c.satisfy(WitnessValues::from(name_values(wit)?)) {
+                Ok(s) => enc_redeem(&s),
+                Err(_) => "err".to_string(),
+            },
+            match c.satisfy_with_env(WitnessValues::from(name_values(wit)?), None) {
+                Ok(s) => enc_redeem(&s),
+                Err(_) => "err".to_string(),
+            },
+        ),
+        Err(_) => ("err".to_string(), "err".to_string()),
+    };
+    Ok(format!("(commit {} {}) (redeem {} {} {})", a1, a2, r1, r2, r3))
+}
+
 /// C14 (last clause): the value a tracked call reports for a Simplicity input.
 ///   (mapvalue "<text>" (args..) ((<cmr> <value>)...)) -> (ok (dbg <value>) | (fallible <value>) | (fallible-other) | none | unknown ...)
 fn mapvalue_cmd(text: &str, args: &Sexp, queries: &Sexp) -> Result<String, String> {
@@ -671,6 +711,7 @@ pub fn handle(line: &str) -> Result<String, String> {
         ("params", 1) => params_cmd(a[0].as_atom()?),
         ("dbgsyms", 2) => dbgsyms_cmd(a[0].as_atom()?, &a[1]),
         ("mapvalue", 3) => mapvalue_cmd(a[0].as_atom()?, &a[1], &a[2]),
+        ("apipaths", 4) => apipaths_cmd(a[0].as_atom()?, &a[1], &a[2], a[3].as_usize()? != 0),
         ("calls", 1) => calls_cmd(a[0].as_atom()?),
         ("ast", 1) => Ok(ast_cmd(a[0].as_atom()?)),
         ("term", 3) => term_cmd(a[0].as_atom()?, &a[1], a[2].as_usize()? != 0),
